@@ -240,3 +240,43 @@ package schema
 //@   loop 1 range builder.ProcessField
 //@     invariant cfg != nil && builder.Definitions != nil
 //@     iter ensures [process-bands-are-stacked] currentY == old(currentY) + processHeight + cfg.ProcessGap && processHeight >= 160.0
+
+// ---------------------------------------------------------------------------------------------------------------
+// builder.go: the process builder (C19, partial)
+
+// Giving an element an id through its interface is one Call event (so that the builder's contract can say when it
+// must happen); reading the id is a read-only function of the element.
+//@ func BaseElementInterface.SetId
+//@   assumed
+//@   emits Call(code("schema|BaseElementInterface.SetId"), this)
+
+// A new process builder starts with a fresh process whose only node is a fresh start event, and the cursor on it.
+//@ func NewProcessBuilder
+//@   prop C19
+//@   ensures [fresh-process-with-the-cursor-on-its-start-event] result != nil && fresh(result) && result.Process != nil && fresh(result.Process) &&
+//@             is(result.ptr, *StartEvent) && result.ptr.(*StartEvent) != nil && fresh(result.ptr.(*StartEvent))
+
+// An activity added without a usable id (none, or the empty string) is given one before it is linked in.
+//@ func (*ProcessBuilder).AddActivity
+//@   prop C19
+//@   requires builder.Process != nil && tag(act) != 0 && tag(builder.ptr) != 0
+//@   ensures [a-missing-or-empty-id-is-replaced] old(act.Id() == nil || *act.Id() == "") ==>
+//@             count(Call, code("schema|BaseElementInterface.SetId")) == old(count(Call, code("schema|BaseElementInterface.SetId"))) + 1
+//@   ensures [a-usable-id-is-kept] old(act.Id() != nil && *act.Id() != "") ==>
+//@             count(Call, code("schema|BaseElementInterface.SetId")) == old(count(Call, code("schema|BaseElementInterface.SetId")))
+
+// Out closes the process with an end event and leaves the builder ready for the next process: a fresh process, the
+// cursor on its start event — not on a node of the process just returned.
+//@ func (*ProcessBuilder).Out
+//@   prop C19
+//@   requires builder.Process != nil && tag(builder.ptr) != 0
+//@   ensures [the-builder-starts-afresh] result != nil && builder.Process != nil && builder.Process != old(builder.Process) && builder.Process != result &&
+//@             is(builder.ptr, *StartEvent) && fresh(builder.ptr.(*StartEvent))
+
+// link never assigns ids (it reads them) and moves the cursor to the node it linked in.
+//@ func (*ProcessBuilder).link
+//@   prop C19
+//@   requires builder.Process != nil && tag(node) != 0 && tag(builder.ptr) != 0
+//@   ensures [assigns-no-id] count(Call, code("schema|BaseElementInterface.SetId")) == old(count(Call, code("schema|BaseElementInterface.SetId")))
+//@   ensures [cursor-moves-to-the-linked-node] result == builder && builder.ptr == node && builder.Process == old(builder.Process)
+//@   ensures [one-sequence-flow-added] len(builder.Process.SequenceFlowField) == old(len(builder.Process.SequenceFlowField)) + 1
